@@ -167,7 +167,7 @@ var props = map[string]Prop{
 		Jobs: []Job{
 			{Name: "sema", Kind: "lift", Pkg: "./internal/lib/runtime", Run: "TestVerifC11", Lift: []LiftFile{{Src: "runtime/internal/lib/runtime/sema_llgo.go", Dst: "internal/lib/runtime/sema_llgo.go", DropLinkname: true}},
 				Checks: [2]int{60000, 2000000}, Shards: [2]int{8, 16}, Timeout: [2]time.Duration{10 * min, 60 * min}},
-			prog("litmus", "./harness/c11", "TestC11Litmus", 8, 80, 8, 16),
+			prog("litmus", "./harness/c11", "TestC11Litmus", 8, 48, 8, 16),
 		},
 	},
 	"C04": {
@@ -178,7 +178,7 @@ var props = map[string]Prop{
 			"recover called one frame below the deferred function is generated only in dedicated units (listed finding)",
 		},
 		Jobs: []Job{
-			prog("programs", "./harness/c04", "TestC04Programs", 3, 60, 8, 16),
+			prog("programs", "./harness/c04", "TestC04Programs", 3, 16, 8, 16),
 		},
 	},
 	"C12": {
@@ -189,7 +189,7 @@ var props = map[string]Prop{
 			"only build mode exe is exercised",
 		},
 		Jobs: []Job{
-			prog("modules", "./harness/c12", "TestC12Modules", 2, 60, 8, 16),
+			prog("modules", "./harness/c12", "TestC12Modules", 2, 12, 8, 16),
 		},
 	},
 	"C08": {
@@ -213,7 +213,7 @@ var props = map[string]Prop{
 			"LLVM 14: configurations that crash libLLVM are skipped and counted; loops over large temporaries are not generated (listed C06 stack finding)",
 		},
 		Jobs: []Job{
-			prog("programs", "./harness/c01", "TestC01Programs", 2, 60, 8, 16),
+			prog("programs", "./harness/c01", "TestC01Programs", 2, 14, 8, 16),
 		},
 	},
 	"C14": {
@@ -224,7 +224,7 @@ var props = map[string]Prop{
 			"the in-process injectivity check of the naming functions and the inspection of mergeable (linkonce/weak) definitions across modules are not built; linkname/export directives are not generated",
 		},
 		Jobs: []Job{
-			prog("programs", "./harness/c14", "TestC14Programs", 2, 60, 8, 16),
+			prog("programs", "./harness/c14", "TestC14Programs", 2, 12, 8, 16),
 		},
 	},
 	"C13": {
@@ -237,7 +237,7 @@ var props = map[string]Prop{
 			"archive member names carry a random temporary suffix and are not compared; member contents are",
 		},
 		Jobs: []Job{
-			prog("histories", "./harness/c13", "TestC13Histories", 1, 30, 8, 16),
+			prog("histories", "./harness/c13", "TestC13Histories", 1, 6, 8, 16),
 		},
 	},
 	"C19": {
@@ -250,7 +250,7 @@ var props = map[string]Prop{
 			"O0 only",
 		},
 		Jobs: []Job{
-			prog("programs", "./harness/c19", "TestC19Programs", 3, 50, 8, 16),
+			prog("programs", "./harness/c19", "TestC19Programs", 3, 40, 8, 16),
 		},
 	},
 	"C15": {
@@ -263,7 +263,7 @@ var props = map[string]Prop{
 			"O0 only (programs importing fmt/reflect cannot be optimised by LLVM 14 here)",
 		},
 		Jobs: []Job{
-			prog("programs", "./harness/c15", "TestC15Programs", 2, 30, 8, 16),
+			prog("programs", "./harness/c15", "TestC15Programs", 2, 12, 8, 16),
 		},
 	},
 	"C09": {
@@ -275,7 +275,7 @@ var props = map[string]Prop{
 			"values are integers with the top bit set and dyadic floats; strings/byte buffers (c.AllocaCStr, c.GoString) are not part of this job",
 		},
 		Jobs: []Job{
-			prog("programs", "./harness/c09", "TestC09Programs", 3, 80, 8, 16),
+			prog("programs", "./harness/c09", "TestC09Programs", 3, 20, 8, 16),
 		},
 	},
 }
